@@ -418,25 +418,31 @@ def edit_constant(parameterized):
     # while the flags are off is a copy with the flag off, and is locked
     # with the others when the block is left.
     cls = parameterized if isinstance(parameterized, type) else type(parameterized)
-    private = cls.__dict__.get('_param__private')
-    updated, names = [], []
-    created = [] if isinstance(private, _ClassPrivate) else None
-    if created is not None:
-        outer, private.unlocking = private.unlocking, (names, created)
+    updated, names, created, marked = [], [], [], []
+
+    def mark(klass):
+        # (also the classes the Parameter objects are inherited from: their
+        # instances share those objects)
+        private = getattr(klass, '__dict__', {}).get('_param__private')
+        if isinstance(private, _ClassPrivate) and all(private is not m for m, _ in marked):
+            marked.append((private, private.unlocking))
+            private.unlocking = (names, created)
     try:
+        mark(cls)
         for pname, pobj in parameterized.param.objects(instance=False).items():
             if pobj.constant:
                 updated.append(pobj)
                 names.append(pname)
+                mark(pobj.owner)
                 pobj.constant = False
         yield
     finally:
-        if created is not None:
+        for private, outer in reversed(marked):
             private.unlocking = outer
         # Every flag is put back, also when a watcher of the 'constant'
         # attribute raises on the way
         current = parameterized.param.objects(instance=False)
-        relock = updated + [current[n] for n in names if n in current] + (created or [])
+        relock = updated + [current[n] for n in names if n in current] + created
         failure, seen = None, set()
         for pobj in relock:
             if id(pobj) in seen:
